@@ -79,7 +79,11 @@ func (s *SecureChannel) EncryptUserPassword(policyURI, password string, cert, no
 	}
 	remoteKey := remoteX509Cert.PublicKey.(*rsa.PublicKey)
 
-	enc, err := uapolicy.Asymmetric(policyURI, s.cfg.LocalKey, remoteKey)
+	// Only the server's public key is used to encrypt the secret. The channel's
+	// own private key must not be passed: the user token policy can differ from
+	// the channel's policy and then has other key size limits (a 3072 or 4096 bit
+	// client key on a Basic256Sha256 channel with a Basic128Rsa15 token policy).
+	enc, err := uapolicy.Asymmetric(policyURI, nil, remoteKey)
 	if err != nil {
 		return nil, "", err
 	}
